@@ -110,6 +110,67 @@ def expect_at(ctx, asm, src, compress, file, lineno, cls, fault, include_dirs=No
     return real
 
 
+def legal_operand(k):
+    """one operand text inside the documented set of kind k (tools/isa.py)"""
+    if k == 'r':
+        return 'x9'
+    if k in ('rc', 'rnz', 'rn02'):
+        return 'x9'
+    t = k[0]
+    if t in ('i', 'inz'):
+        _, lo, hi, sc = k
+        v = sc * max(1, (lo // sc) + 1) if lo > 0 else sc
+        return str(v if lo <= v <= hi else lo + ((-lo) % sc))
+    if t in ('upper', 'cupper'):
+        return '5'
+    if t == 'set':
+        return '3'
+    if t == 'csr':
+        return '0x300'
+    raise ValueError(k)
+
+
+def mnemonic_faults():
+    """For EVERY mnemonic and EVERY operand position: an unknown register / an out-of-range immediate / an undefined name /
+    a malformed expression in that position, all other operands legal.  (class, line)"""
+    import isa
+    out = []
+    for name, kinds in isa.SPEC_ALL.items():
+        base = [legal_operand(k) for k in kinds]
+        if name in isa.ATOMICS:
+            pass
+        for j, k in enumerate(kinds):
+            variants = []
+            if isinstance(k, str):
+                variants = [('register', 'q9'), ('register', 'x32'), ('register', 'x-1')]
+            else:
+                variants = [('range', str(1 << 40)), ('range', str(-(1 << 40))), ('undefined', 'UNDEF_NAME'),
+                            ('expression', '1 +'), ('expression', '2.5'), ('expression', "'ab'")]
+                if k[0] in ('i', 'inz'):
+                    variants += [('range', str(k[2] + k[3])), ('range', str(k[1] - k[3]))]
+            for cls, txt in variants:
+                ops = list(base)
+                ops[j] = txt
+                out.append((cls, (name + ' ' + ', '.join(ops)).strip()))
+    # pseudo-instructions: registers and targets in every position
+    P2 = ['mv', 'not', 'neg', 'seqz', 'snez', 'sltz', 'sgtz']
+    PB1 = ['beqz', 'bnez', 'blez', 'bgez', 'bltz', 'bgtz']
+    PB2 = ['bgt', 'ble', 'bgtu', 'bleu']
+    for n in P2:
+        out += [('register', n + ' q9, x9'), ('register', n + ' x9, q9')]
+    for n in PB1:
+        out += [('register', n + ' q9, start'), ('undefined', n + ' x9, NOWHERE'), ('range', n + ' x9, 1048576')]
+    for n in PB2:
+        out += [('register', n + ' q9, x9, start'), ('register', n + ' x9, q9, start'), ('undefined', n + ' x9, x8, NOWHERE')]
+    for n in ['j', 'jal', 'call', 'tail']:
+        out += [('undefined', n + ' NOWHERE')]
+    for n in ['jr', 'jalr']:
+        out += [('register', n + ' q9')]
+    out += [('register', 'li q9, 5'), ('undefined', 'li x9, NOWHERE'), ('expression', 'li x9, 1 +'), ('expression', 'li x9, 2.5'),
+            ('undefined', 'li x9, %hi(NOWHERE)'), ('undefined', 'li x9, %position(NOWHERE, 4)'), ('undefined', 'li x9, %offset NOWHERE')]
+    return out
+
+
 def explore(ctx):
     asm = harness.real_asm()
     rng = ctx.rng
@@ -145,6 +206,15 @@ def explore(ctx):
                 for c in (False, True):
                     expect_at(ctx, asm, src, c, '<string>', ln, cls, fault)
                     progs.append({'source': src, 'compress': c})
+    # ---- every mnemonic x every operand position x every fault kind (systematic, both modes) -------------------------------------
+    mf = mnemonic_faults()
+    if ctx.quick():
+        mf = mf[ctx.seed % 3::3]
+    for cls, fault in mf:
+        lines = ['start:', 'addi x8, x8, 1', fault, 'lw x8, 4(x9)']
+        src = '\n'.join(lines) + '\n'
+        for c in (False, True):
+            expect_at(ctx, asm, src, c, '<string>', 3, cls, fault)
     # ---- duplicate label ------------------------------------------------------------------------------------------
     for k in range(3 if ctx.quick() else 20):
         lines = base_program(rng)
